@@ -5,6 +5,7 @@ numeric builtins and on the compound-index-assignment helper.  Oracle: online di
 with the operand widths in hand.
 """
 import math
+import random
 from decimal import Decimal
 
 from lib import monitors
@@ -27,7 +28,7 @@ FINDINGS = {
     'intlike-expands-exponent': 'int/floor/ceil/round materialise every integer digit of a Decimal with a large positive exponent',
     'compound-multiply-native': '*= uses the native operator: host ints multiply at full width, strings and lists are repeated',
 }
-CASE_DEADLINE = 15
+CASE_DEADLINE = 6
 NUMERIC = (int, float, Decimal)
 NUM_BUILTINS = ['int', 'float', 'round', 'floor', 'ceil', 'abs', 'sum', 'min', 'max']
 
@@ -311,8 +312,11 @@ def cases(ctx):
             if n % ctx.nshards == ctx.shard:
                 yield ('src', '[min(a, b), max(a, b), sum([a, b]), min([a, b]), max([b, a]), sum([a, b, a, b, a, b, a, b, a, b, a])]', {'a': a, 'b': b})
             n += 1
+    # random host numbers (all three types, many magnitudes) x operator x form
+    for _ in range(ctx.scale(3000, 60000)):
+        yield ('rnd', rnd.getrandbits(48))
     # chains
-    for _ in range(ctx.scale(150, 4000)):
+    for _ in range(ctx.scale(800, 8000)):
         k = rnd.randint(2, 30)
         a = rnd.choice(POOL)
         lines = []
@@ -333,8 +337,44 @@ def cases(ctx):
         yield ('src', '\n'.join(lines) + '\nx', {'x': a, 'a': rnd.choice(POOL), 'b': rnd.choice(POOL), 'c': [rnd.choice(POOL)], 's': 'abc'})
 
 
+def random_number(r):
+    """host numbers of all three Python types over many magnitudes and digit counts (the fixed POOL has one of each class)"""
+    k = r.randrange(9)
+    if k == 0:
+        return r.randint(-10 ** 6, 10 ** 6)
+    if k == 1:
+        return r.choice([1, -1]) * (10 ** r.choice([27, 28, 29, 30, 60, 100, 300, 1000, 4000]) + r.randint(-5, 5))
+    if k == 2:
+        return r.choice([1, -1]) * r.getrandbits(r.choice([8, 64, 93, 94, 128, 1024, 9000]))
+    if k == 3:
+        return r.uniform(-1e6, 1e6)
+    if k == 4:
+        return r.choice([1, -1]) * r.random() * 10.0 ** r.randint(-320, 308)
+    if k == 5:
+        digits = ''.join(r.choice('0123456789') for _ in range(r.choice([1, 5, 27, 28, 29, 40, 90])))
+        return D('%s%sE%d' % (r.choice(['', '-']), digits or '0', r.choice([0, 0, -5, -40, 10, 100, 1000, -1000, 6000, -6000])))
+    if k == 6:
+        return D(r.randint(-10 ** 9, 10 ** 9)) / D(10 ** r.randint(0, 12))
+    if k == 7:
+        return r.choice([True, False, 0, 0.0, -0.0, D('-0'), D('0E+100'), D('1E-9999'), D('9.999999999999999999999999999E+9999')])
+    return r.choice(POOL)
+
+
 def run_case(case, ctx):
     import copy
+    if case[0] == 'rnd':
+        r = random.Random(case[1])
+        a, b = random_number(r), random_number(r)
+        op = r.choice(OPS)
+        form = r.randrange(8)
+        names = {'a': a, 'b': b, 'c': [a], 'd': {'k': a}}
+        src = ['a %s b', 'a %s= b\na', 'c[0] %s= b\nc', 'd["k"] %s= b\nd', '[a, b] | map(v => v %s b)', 'x = a %s b\nx %s= a\nx'.replace('%s', '%s', 1), 'f = (p, q) => p %s q\nf(a, b)', '(a %s b) %s a'][form]
+        src = src.replace('%s', op) if form not in (1, 2, 3) or op != '**' else 'a ** b'
+        if form == 7 or r.random() < 0.2:
+            f = r.choice(['int', 'float', 'round', 'floor', 'ceil', 'abs'])
+            src = src + '\n[%s(a), %s(b), round(a, %d), sum([a, b]), min(a, b), max([a, b])]' % (f, f, r.choice([0, 1, -1, 5, 30, -30, 200]))
+        case = ('src', src, names)
+        ctx.count('random_magnitude_cases')
     _, src, names = case
     W = ctx.W
     W.case = case
